@@ -104,6 +104,49 @@ def run(ctx):
                                        "diag": {"error": 0, "Error": 0, "warn": 0, "Warn": 0}, "nstmt": 0, "loc": 0, "fmt": ""}]
                     R.rel("eq", ["C12"], a=b["id"], b=cid)
                     ncli += 1
+    # size as a layout dimension, through the real command: the same statements with long comments (source > 64 KiB, > 1 MiB in the
+    # thorough tier) under the three line-ending conventions, and single comment lines longer than common buffer sizes (4 KiB, 64 KiB,
+    # 1 MiB) on a line of their own and after a statement - anything that reads the file in bounded pieces shows up here
+    def cli_run(stmts, raw, ref):
+        nonlocal ncli
+        sp = os.path.join(d, "big_%d.nas" % ncli)
+        dp = os.path.join(d, "bigout_%d.bin" % ncli)
+        open(sp, "wb").write(raw)
+        r = ctx.run_cli([sp, dp])
+        data = open(dp, "rb").read() if os.path.isfile(dp) else b""
+        os.remove(sp)
+        cid = R.add(stmts, src="; %d bytes of source, see lib/props/c12.py (size dimension)" % len(raw), notrace=True)
+        R.results[cid] = [{"e": "end", "id": cid, "status": "ok" if r["rc"] == 0 else "exit", "exit": r["rc"] if r["rc"] >= 0 else 128 - r["rc"],
+                           "panic": "", "perr": "", "stdout": "", "outlen": len(data), "sha": hashlib.sha256(data).hexdigest()[:16],
+                           "diag": {"error": 0, "Error": 0, "warn": 0, "Warn": 0}, "nstmt": 0, "loc": 0, "fmt": ""}]
+        R.rel("eq", ["C12"], a=ref, b=cid)
+        ncli += 1
+    big = [{"k": "org", "v": 0x7c00}]
+    for j in range(400):
+        big.append({"k": "ins", "mn": "MOV", "ops": [{"t": "r", "w": 8, "n": 0}, {"t": "i", "v": j % 200, "sty": "d"}]})
+        big.append({"k": "ins", "mn": "OUT", "ops": [{"t": "i", "v": 0x60, "sty": "h"}, {"t": "r", "w": 8, "n": 0}]})
+    big.append({"k": "ins", "mn": "HLT", "ops": []})
+    bigsrc = render.program(big)
+    bref = R.add(big, src=bigsrc)
+    R.results.update(ctx.run_jobs([{"id": bref, "src": bigsrc}]))
+    blines = bigsrc.split("\n")
+    if blines[-1] == "":
+        blines.pop()
+    nbig = 0
+    for per_line in ((110,) if quick else (110, 1400)):                       # ~ 95 KiB and ~ 1.1 MiB of source
+        for eol in ("\n", "\r\n", "\r"):
+            text = eol.join("%s\t; %s" % (l, ("line %d " % i) + "x" * per_line) for i, l in enumerate(blines)) + eol
+            cli_run(big, text.encode(), bref)
+            nbig += 1
+    for n in ((5000, 70000) if quick else (4095, 4096, 5000, 65535, 65536, 70000, 1100000)):
+        for eol in ("\n", "\r\n", "\r"):
+            own = blines[:3] + ["; " + "c" * n] + blines[3:]                 # a comment line of its own
+            cli_run(big, (eol.join(own) + eol).encode(), bref)
+            after = blines[:3] + [blines[3] + " ; " + "c" * n] + blines[4:]   # after a statement
+            cli_run(big, (eol.join(after) + eol).encode(), bref)
+            blank = blines[:3] + [blines[3] + " " * n] + blines[4:]           # trailing blanks
+            cli_run(big, (eol.join(blank) + eol).encode(), bref)
+            nbig += 3
     return relcheck.finish(ctx, "C12", R, None,
-                           "seeded random programs (incl. strings containing ',', ';', '#', blanks) x layouts enumerated by TLC (Gen_Variants.tla: all single-gap variations of the canonical layout%s) + seeded per-statement mixed layouts; relation: same outcome class and identical output" % (
+                           "seeded random programs (incl. strings containing ',', ';', '#', blanks) x layouts enumerated by TLC (Gen_Variants.tla: all single-gap variations of the canonical layout%s) + seeded per-statement mixed layouts; through the command also sources of 95 KiB (thorough: and 1.1 MiB) with a comment on every line under LF/CRLF/CR and single comment lines / trailing blanks of 5 000 .. 70 000 (thorough: 4 095 .. 1 100 000) bytes; relation: same outcome class and identical output" % (
                                "" if quick else "; full product of 11 gap dimensions sampled by seed"), ASSUME, extra={"base_programs": nb})
